@@ -473,6 +473,8 @@ class StreamResetOutgoingParam:
 
     @classmethod
     def parse(cls, data: bytes) -> "StreamResetOutgoingParam":
+        if len(data) < 12 or len(data) % 2:
+            raise ValueError("RE-CONFIG outgoing SSN reset request has invalid length")
         request_sequence, response_sequence, last_tsn = unpack_from("!LLL", data)
         streams = []
         for pos in range(12, len(data), 2):
@@ -496,6 +498,8 @@ class StreamAddOutgoingParam:
 
     @classmethod
     def parse(cls, data: bytes) -> "StreamAddOutgoingParam":
+        if len(data) < 8:
+            raise ValueError("RE-CONFIG add outgoing streams request is truncated")
         request_sequence, new_streams, reserved = unpack_from("!LHH", data)
         return cls(request_sequence=request_sequence, new_streams=new_streams)
 
@@ -510,6 +514,8 @@ class StreamResetResponseParam:
 
     @classmethod
     def parse(cls, data: bytes) -> "StreamResetResponseParam":
+        if len(data) < 8:
+            raise ValueError("RE-CONFIG response is truncated")
         response_sequence, result = unpack_from("!LL", data)
         return cls(response_sequence=response_sequence, result=result)
 
@@ -1013,7 +1019,12 @@ class RTCSctpTransport(AsyncIOEventEmitter):
             for param in chunk.params:
                 cls = RECONFIG_PARAM_TYPES.get(param[0])
                 if cls is not None:
-                    await self._receive_reconfig_param(cls.parse(param[1]))
+                    try:
+                        reconfig_param = cls.parse(param[1])
+                    except ValueError:
+                        # truncated parameter
+                        continue
+                    await self._receive_reconfig_param(reconfig_param)
 
         # server
         elif (
